@@ -343,6 +343,13 @@ def guarded(fn, *a):
 
 
 # ------------------------------------------------------------------ cases, verdict
+class Hang(BaseException):
+    """raised inside stubbed transports when a request has read far more often than any terminating run can"""
+
+
+TRACE_LIMIT = 250_000
+
+
 class JumpyClock:
     """While active, every clock of the `time` module jumps ahead by several seconds per reading: code specified as a
     function of its input bytes alone (parsers, codecs) must not care. Restored on exit."""
